@@ -314,6 +314,18 @@ func PolicyTypesTable(p *core.Program, r *core.Report, rule string) {
 			}
 			return
 		}
+		// the membership test written as a library call: slices.Contains(spec.policyTypes, direction)
+		if c, isC := res.(*ast.CallExpr); isC && len(c.Args) == 2 {
+			if fn := core.Callee(info, c); fn != nil && fn.Pkg() != nil && fn.Pkg().Path() == "slices" && fn.Name() == "Contains" {
+				fl := core.FieldOf(info, c.Args[0])
+				id, isID := ast.Unparen(c.Args[1]).(*ast.Ident)
+				if fl != nil && fl.Name() == "PolicyTypes" && isID && info.ObjectOf(id) == dir {
+					rows["member"], rows["notmember"] = true, true
+					r.Check(haveTE && facts.Entails(bg, facts.Not{X: te}), rule, fd.Key()+": explicit policyTypes -> listed directions only (library membership test)", pos, "slices.Contains(spec.policyTypes, direction) under non-empty spec.policyTypes", "the membership answer is given although spec.policyTypes may be unset: the defaulting rules do not apply")
+					return
+				}
+			}
+		}
 		// a computed answer: the egress default `len(Spec.Egress) > 0`
 		mentionsEgress := false
 		ast.Inspect(res, func(n ast.Node) bool {
